@@ -93,8 +93,16 @@ func (r *CopyOnWriteMap[K, V]) ComputeIf(k K, pred func(V) bool, f func() V) V {
 		return ret.Get()
 	}
 
-	nv := f()
+	// check again under the lock: another goroutine may have stored a value since the read above
+	var result V
 	r.copyOnWrite(func(om fp.UnsafeGoMap[K, V]) fp.UnsafeGoMap[K, V] {
+		cur := om.Get(k).FilterNot(pred)
+		if cur.IsDefined() {
+			result = cur.Get()
+			return om
+		}
+
+		nv := f()
 		nm := fp.UnsafeGoMap[K, V]{}
 
 		for k, v := range om {
@@ -102,10 +110,11 @@ func (r *CopyOnWriteMap[K, V]) ComputeIf(k K, pred func(V) bool, f func() V) V {
 
 		}
 		nm[k] = nv
+		result = nv
 		return nm
 	})
 
-	return r.Get(k).Get()
+	return result
 }
 
 func (r *CopyOnWriteMap[K, V]) Updated(k K, v V) fp.MapBase[K, V] {
